@@ -1028,6 +1028,7 @@ func init() {
 		c := &Check{ID: "C12"}
 		cnt := func(tier string) int { return c12Universe(tier).count() }
 		c.Scenarios = append(c.Scenarios, Scenario{Name: "deepcast-direct", Count: cnt, Run: c12Direct})
+		c.Scenarios = append(c.Scenarios, Scenario{Name: "cast-errors-caught-mid-expression", Count: func(string) int { return c12MidCount() }, Run: c12MidRun})
 		for _, rt := range c12ProgRoutes {
 			c.Scenarios = append(c.Scenarios, c12ProgScenario(rt))
 		}
